@@ -251,3 +251,14 @@ Example ex_slug :
   to_slug w_ascii (PStr (lit "  Hello,  W" ++ [246] ++ lit "rld -- x_1! ")) None (lit "strict") = COk (lit "hello-world-x_1") /\
   to_slug w_ascii (PStr (lit "-a-")) None (lit "strict") = COk (lit "-a-").
 Proof. vm_compute. split; reflexivity. Qed.
+(* the UTF-8 decoder: overlong forms (C0 80, E0 80 80, F0 80 80 80), a surrogate (ED A0 80) and a value above
+   U+10FFFF (F4 90 80 80) are rejected under 'strict'; under 'replace' every maximal invalid prefix becomes
+   one U+FFFD; a truncated but so far valid sequence (E2 82) is one error *)
+Example ex_utf8_rejects :
+  map (utf8_dec Strict) [[192;128]; [224;128;128]; [240;128;128;128]; [237;160;128]; [244;144;128;128]]
+    = repeat (CExn EUnicodeDecodeError) 5 /\
+  utf8_dec Replace [97; 224;128;128; 98] = COk [97; 65533; 65533; 65533; 98] /\
+  utf8_dec Replace [97; 226;130] = COk [97; 65533] /\
+  utf8_dec Ignore [97; 226;130; 98] = COk [97; 98] /\
+  utf8_dec Strict [244;143;191;191] = COk [1114111].
+Proof. vm_compute. repeat split. Qed.
